@@ -181,7 +181,7 @@ class Rational(Primitive):
             try:
                 result = impl(self._value, right._value)
             except ZeroDivisionError:
-                raise _any.InvalidOperandError("Cannot divide %s by zero" % self._value) from None
+                raise _any.InvalidOperandError("Cannot divide %s by zero" % self) from None
             except (OverflowError, ValueError) as ex:
                 # E.g., raising a huge number to a non-integer power goes through float arithmetic internally.
                 raise _any.InvalidOperandError("The result is not representable: %s" % ex) from None
